@@ -87,6 +87,9 @@ var verifSpin, verifSpinBreaks uint64
 // VerifSpinReset is called by the simulation driver at every step.
 func VerifSpinReset() uint64 { verifSpin = 0; return verifSpinBreaks }
 
+// VerifSpinBreaks returns how often the spin guard made a busy loop sleep.
+func VerifSpinBreaks() uint64 { return verifSpinBreaks }
+
 var verifYieldProb uint32
 var verifTrace uint64
 var verifYields uint64
